@@ -1,0 +1,53 @@
+//go:build verif
+
+package ztest
+
+// Contracts for diff.go, read by /verif's verification-condition generator
+// (mathematical-integer mode with no-overflow obligations). Comment-only;
+// compiled only with -tags verif.
+
+//@ func ztest.formatRangeUnified(start int, stop int) (s string)
+//@   mathint
+//@   requires 0 <= start && start <= stop && stop < 9223372036854775807
+//@   ensures stop - start == 1 ==> s == sprintf("%d", start + 1)                          [C20] "a one-line range is written as its line number"
+//@   ensures stop - start == 0 ==> s == sprintf("%d,%d", start, 0)                        [C20] "an empty range is written as the line before it and length 0"
+//@   ensures stop - start > 1 ==> s == sprintf("%d,%d", start + 1, stop - start)          [C20] "otherwise first line (from one) and length"
+
+// What GetOpCodes needs from matchingBlocks. matchingBlocks (a recursive
+// closure) and findLongestMatch (map of slices) are outside the verified
+// subset: this contract is ASSUMED here and checked by the bounded harness.
+//@ pred BlocksOK(a []string, b []string, bl []match) := len(bl) >= 1 &&
+//@        bl[len(bl)-1].A == len(a) && bl[len(bl)-1].B == len(b) && bl[len(bl)-1].Size == 0 && 0 <= bl[0].A && 0 <= bl[0].B &&
+//@        forall(k, int, 0 <= k && k < len(bl)-1 ==> bl[k].Size > 0 && 0 <= bl[k].A && 0 <= bl[k].B && bl[k].A + bl[k].Size <= bl[k+1].A && bl[k].B + bl[k].Size <= bl[k+1].B &&
+//@               bl[k].A + bl[k].Size <= len(a) && bl[k].B + bl[k].Size <= len(b)) &&
+//@        forall(k, int, forall(t, int, 0 <= k && k < len(bl)-1 && 0 <= t && t < bl[k].Size ==> a[bl[k].A + t] == b[bl[k].B + t]))
+//@ func (sm *ztest.sequenceMatcher) matchingBlocks() (bl []match)
+//@   mathint
+//@   opt assumed = bounded
+//@   ensures BlocksOK(sm.a, sm.b, bl)
+//@   ensures sm.a == old(sm.a) && sm.b == old(sm.b)
+
+// The opcodes tile [0,i) x [0,j) contiguously from (0,0); no opcode is empty;
+// 'e' ranges have equal length and equal content; tags are as documented.
+//@ pred TilesUpTo(a []string, b []string, c []opCode, i int, j int) :=
+//@        (len(c) == 0 ==> i == 0 && j == 0) &&
+//@        (len(c) > 0 ==> c[0].I1 == 0 && c[0].J1 == 0 && c[len(c)-1].I2 == i && c[len(c)-1].J2 == j) &&
+//@        forall(k, int, 0 <= k && k < len(c)-1 ==> c[k].I2 == c[k+1].I1 && c[k].J2 == c[k+1].J1) &&
+//@        forall(k, int, 0 <= k && k < len(c) ==> 0 <= c[k].I1 && 0 <= c[k].J1 && c[k].I1 <= c[k].I2 && c[k].J1 <= c[k].J2 && (c[k].I1 < c[k].I2 || c[k].J1 < c[k].J2) && c[k].I2 <= i && c[k].J2 <= j) &&
+//@        forall(k, int, 0 <= k && k < len(c) ==> (c[k].Tag == 'e' || c[k].Tag == 'r' || c[k].Tag == 'd' || c[k].Tag == 'i') &&
+//@               (c[k].Tag == 'd' ==> c[k].J1 == c[k].J2) && (c[k].Tag == 'i' ==> c[k].I1 == c[k].I2) && (c[k].Tag == 'r' ==> c[k].I1 < c[k].I2 && c[k].J1 < c[k].J2) &&
+//@               (c[k].Tag == 'e' ==> c[k].I2 - c[k].I1 == c[k].J2 - c[k].J1)) &&
+//@        forall(k, int, forall(t, int, 0 <= k && k < len(c) && c[k].Tag == 'e' && 0 <= t && t < c[k].I2 - c[k].I1 ==> a[c[k].I1 + t] == b[c[k].J1 + t]))
+
+//@ func (sm *ztest.sequenceMatcher) GetOpCodes() (codes []opCode)
+//@   mathint
+//@   requires 0 <= len(sm.a) && len(sm.a) <= 9223372036854775807 && 0 <= len(sm.b) && len(sm.b) <= 9223372036854775807     -- Go: a slice length is a non-negative int
+//@   ensures TilesUpTo(sm.a, sm.b, codes, len(sm.a), len(sm.b))                           [C20] "the edit script covers both texts contiguously, equal ranges really are equal, no empty step"
+//@   ensures sm.a == old(sm.a) && sm.b == old(sm.b)
+//@   loop 1 "for _, m := range matching"
+//@     invariant BlocksOK(sm.a, sm.b, matching) && sm.a == old(sm.a) && sm.b == old(sm.b)
+//@     invariant 0 <= loopIdx && loopIdx <= len(matching)
+//@     invariant 0 <= i && 0 <= j && len(opCodes) >= 0
+//@     invariant loopIdx == 0 ==> i == 0 && j == 0
+//@     invariant loopIdx > 0 ==> i == matching[loopIdx-1].A + matching[loopIdx-1].Size && j == matching[loopIdx-1].B + matching[loopIdx-1].Size
+//@     invariant TilesUpTo(sm.a, sm.b, opCodes, i, j)
